@@ -57,6 +57,12 @@ def readPointsLast (bytes : List Char) (sep comment : Char) : Option (List (Int 
   let g := if wsSep sep then pointLastWs else pointLastSep sep
   readPointsLastLoop g (csvSkipper comment) (bytes.length + 1) bytes []
 
+/-- `importCSVReaderSingleValue<T>` (`*auto_` under `space | comment…`): the values, or `none` -/
+def readValues (g : G) (bytes : List Char) (comment : Char) : Option (List Ev) :=
+  match phraseParse g (valueSkipper comment) bytes with
+  | .ok [] evs => some evs
+  | _ => none
+
 end SharkVerif.Import.Csv
 
 /-! ### exporters as token printers (`detail::exportCSV_labeled`, `exportSparseData`) -/
